@@ -743,6 +743,9 @@ func FunctionMap() map[string]physical.FunctionDetails {
 					OutputType:    octosql.String,
 					Strict:        true,
 					Function: func(values []octosql.Value) (octosql.Value, error) {
+						if values[1].Int < 0 {
+							return octosql.Value{}, fmt.Errorf("substr start index must not be negative, got %d", values[1].Int)
+						}
 						if int64(len(values[0].Str)) <= values[1].Int {
 							return octosql.NewString(""), nil
 						}
@@ -754,12 +757,18 @@ func FunctionMap() map[string]physical.FunctionDetails {
 					OutputType:    octosql.String,
 					Strict:        true,
 					Function: func(values []octosql.Value) (octosql.Value, error) {
+						if values[1].Int < 0 {
+							return octosql.Value{}, fmt.Errorf("substr start index must not be negative, got %d", values[1].Int)
+						}
+						if values[2].Int < 0 {
+							return octosql.Value{}, fmt.Errorf("substr length must not be negative, got %d", values[2].Int)
+						}
 						if int64(len(values[0].Str)) <= values[1].Int {
 							return octosql.NewString(""), nil
 						}
-						end := values[1].Int + values[2].Int
-						if end > int64(len(values[0].Str)) {
-							end = int64(len(values[0].Str))
+						end := int64(len(values[0].Str))
+						if values[2].Int < end-values[1].Int { // written this way start+length cannot overflow
+							end = values[1].Int + values[2].Int
 						}
 						return octosql.NewString(values[0].Str[values[1].Int:end]), nil
 					},
